@@ -116,7 +116,7 @@ pub fn answer_of(schema: &SchemaRef, batches: &[RecordBatch]) -> Answer {
     }
 }
 
-pub const DEFAULT_TIMEOUT: Duration = Duration::from_secs(120);
+pub const DEFAULT_TIMEOUT: Duration = Duration::from_secs(75);
 
 /// `ctx.sql(sql)` with panic capture and a watchdog.
 pub fn run_sql(ctx: &Arc<ExecutionContext>, sql: &str) -> Outcome {
